@@ -1,6 +1,8 @@
 import KM.Lemmas.Token
 import KM.Model.Oidc
 import KM.Gen.C12
+import KM.Model.GoTypes
+import KM.Gen.GoOidc
 /-! # C12 — OpenID tokens go only to the right client and name the right user
 
 Property theorems only; the model is `KM.Oidc` (token endpoint, PKCE, userinfo) over the artefacts
@@ -588,5 +590,25 @@ example : isOk (authorize exCfg "alice".toList (exForm "spa".toList "https://api
 example : isOk (authorize exCfg "alice".toList (exForm "web".toList "https://api.app".toList "n-123456".toList) 1000) = false := by decide
 example : isOk (authorize exCfg "alice".toList (exForm "web".toList [] "abc".toList) 1000) = false := by decide
 example : isOk (authorize exCfg "alice".toList (exForm "web".toList [] [] ) 1000) = true := by decide
+
+end KM.Oidc
+
+/-! ### the client-credential predicates as TRANSLATED from the current source (go2lean) -/
+namespace KM.Oidc
+open KM.GoTypes
+
+/-- how a configured client reads in the model -/
+def clientOfGo (c : OpenIDConnectClientConfig) : Client :=
+  { id := c.ClientID, secret := c.ClientSecret, chosenAudiences := c.AllowClientChosenAudiences }
+
+/-- the translated `ValidClientSecret` is byte equality with the configured secret — the
+comparison `credsValid`/`provedClient` use -/
+theorem c12_go_valid_secret (c : OpenIDConnectClientConfig) (pass : List Char) :
+    KM.Gen.GoOidc.ValidClientSecret c pass = (pass == (clientOfGo c).secret) := rfl
+
+/-- the translated `ClientCanDoPKCEAuth`: exactly the clients without a secret, never an error —
+the test `tokenEndpoint` applies before it looks at a verifier -/
+theorem c12_go_pkce_allowed (c : OpenIDConnectClientConfig) :
+    KM.Gen.GoOidc.ClientCanDoPKCEAuth c = ((clientOfGo c).secret == [], none) := rfl
 
 end KM.Oidc
